@@ -789,3 +789,65 @@ def install_pandas_patches():
     _pd.Series.unique = s_unique
     _pd.Series.duplicated = s_duplicated
     _pd.Series.drop_duplicates = s_drop_duplicates
+
+
+class _SymRolling:
+    """Model of Series.rolling(window, min_periods, center=...) for object
+    columns holding proxies: median / quantile / std / mean over the window's
+    non-NaN values (NaN when fewer than min_periods)."""
+
+    def __init__(self, series, window, min_periods=None, center=False):
+        self.s = series
+        self.window = _builtin_int(window)
+        self.min_periods = self.window if min_periods is None else _builtin_int(min_periods)
+        self.center = center
+
+    def _windows(self):
+        xs = list(self.s.values)
+        n = len(xs)
+        w = self.window
+        for i in range(n):
+            if self.center:
+                # pandas: the centred window covers [i - window // 2, i - window // 2 + window)
+                off = w // 2
+                lo, hi = i - off, i - off + w
+            else:
+                lo, hi = i - w + 1, i + 1
+            vals = [xs[j] for j in range(max(lo, 0), min(hi, n)) if not _is_nan(xs[j])]
+            yield vals
+
+    def _apply(self, f):
+        out = []
+        for vals in self._windows():
+            out.append(f(vals) if len(vals) >= max(self.min_periods, 1) else float("nan"))
+        return _pd.Series(_obj_array(out), index=self.s.index, dtype=object)
+
+    def median(self):
+        return self._apply(sym_median)
+
+    def mean(self):
+        return self._apply(sym_mean)
+
+    def quantile(self, q, *a, **k):
+        return self._apply(lambda v: sym_percentile(v, Fraction(q) * 100))
+
+    def std(self, ddof=1):
+        return self._apply(lambda v: core.sqrt(sym_var(v, ddof)) if len(v) > ddof else float("nan"))
+
+
+_rolling_patched = False
+
+
+def install_rolling_patch():
+    global _rolling_patched
+    if _rolling_patched:
+        return
+    _rolling_patched = True
+    orig = _pd.Series.rolling
+
+    def rolling(self, window, min_periods=None, center=False, *a, **k):
+        if _sym_mode() and self.dtype == object and has_sym(self) and not a and not k:
+            return _SymRolling(self, window, min_periods, center)
+        return orig(self, window, min_periods, center, *a, **k)
+
+    _pd.Series.rolling = rolling
